@@ -17,6 +17,7 @@ describing the disagreement.  Cases come either from a Hypothesis strategy
 import collections
 import hashlib
 import json
+import zlib
 import multiprocessing as mp
 import os
 import sys
@@ -58,16 +59,22 @@ def setup_path():
     return pyModeS
 
 
+KEYWORD_FORMS = os.environ.get("VERIF_KEYWORD_FORMS", "1") != "0"
+
+
 class Note:
     """Per-case recorder handed to a leg's check function."""
 
-    __slots__ = ("classes", "nontrivial", "key", "evals")
+    __slots__ = ("classes", "nontrivial", "key", "evals", "nt_extra", "cls_extra", "samples_extra")
 
     def __init__(self):
         self.classes = []
         self.nontrivial = False
         self.key = None
         self.evals = 1  # a case that stands for a whole enumerated block says how many
+        self.nt_extra = None       # a campaign summary: hashes of the non-trivial cases the campaign executed
+        self.cls_extra = None      # ... their class histogram
+        self.samples_extra = None  # ... and a few of them written out
 
     def cls(self, *names):
         self.classes.extend(names)
@@ -189,6 +196,12 @@ def run_one(leg, case, stats, known):
     stats.cases += 1
     if note.classes:
         stats.classes.update(note.classes)
+    if note.nt_extra:
+        stats.nt_hashes.update(note.nt_extra)
+    if note.cls_extra:
+        stats.classes.update(note.cls_extra)
+    if note.samples_extra:
+        stats.samples.extend({"leg": leg.name, "case": c, "classes": ["campaign-sample"]} for c in note.samples_extra[:max(0, MAX_SAMPLES - len(stats.samples))])
     if note.nontrivial:
         stats.nt_hashes.add(case_hash(case if note.key is None else note.key))
         if len(stats.samples) < MAX_SAMPLES and (stats.cases % 7 == 1 or len(stats.samples) < 2):
@@ -739,9 +752,63 @@ def run_replay(modname, path):
     return 0
 
 
-def call(f, *a, **k):
-    """Call code under test; ('ok', value) or ('raise', TypeName, message)."""
+_KW_SIG = {}
+_KW_COUNT = [0, 0]   # calls repeated in keyword form, of which with differing outcome
+
+
+def _kw_names(f):
+    """parameter names of a plain module-level function (None: not introspectable, variadic or positional-only - left alone)"""
+    import inspect
+    key = id(f)
+    if key not in _KW_SIG:
+        names = None
+        try:
+            if inspect.isfunction(f):
+                ps = list(inspect.signature(f).parameters.values())
+                if all(p.kind == p.POSITIONAL_OR_KEYWORD for p in ps):
+                    names = [p.name for p in ps]
+        except (TypeError, ValueError):
+            names = None
+        _KW_SIG[key] = (f, names)   # (keeps f alive so that the id stays its own)
+    return _KW_SIG[key][1]
+
+
+def _same(a, b):
+    if a[0] != b[0]:
+        return False
+    if a[0] == "raise":
+        return a[1] == b[1]
     try:
-        return ("ok", f(*a, **k))
+        return repr(a[1]) == repr(b[1])
+    except Exception:  # noqa
+        return True
+
+
+def call(f, *a, **k):
+    """Call code under test; ('ok', value) or ('raise', TypeName, message).
+    A plain function called with two or more positional arguments is, in one call out of four (chosen by the arguments), called again
+    with every argument passed by name, the names in reverse order - `f(msg, lat_ref, lon_ref)` as `f(lon_ref=.., lat_ref=.., msg=..)`.
+    How the arguments are passed is not an input of any property: a different outcome is returned as a KeywordFormDiffers failure."""
+    try:
+        r = ("ok", f(*a, **k))
     except Exception as e:  # noqa
-        return ("raise", type(e).__name__, str(e)[:200])
+        r = ("raise", type(e).__name__, str(e)[:200])
+    if len(a) >= 2 and not k and KEYWORD_FORMS:
+        names = _kw_names(f)
+        if names is not None and len(names) >= len(a):
+            try:
+                pick = zlib.crc32(repr(a).encode()) & 3 == 0
+            except Exception:  # noqa
+                pick = False
+            if pick:
+                kw = dict(reversed(list(zip(names, a))))
+                try:
+                    r2 = ("ok", f(**kw))
+                except Exception as e:  # noqa
+                    r2 = ("raise", type(e).__name__, str(e)[:200])
+                _KW_COUNT[0] += 1
+                if not _same(r, r2):
+                    _KW_COUNT[1] += 1
+                    return ("raise", "KeywordFormDiffers", "%s%r -> %r but %s(%s) -> %r" % (getattr(f, "__name__", f), a, r, getattr(f, "__name__", f),
+                                                                                              ", ".join("%s=%r" % kv for kv in kw.items()), r2))
+    return r
